@@ -27,7 +27,9 @@
 (* Abstract application shape (record "app"):                              *)
 (*   start     "eager" (start_response in the callable) | "lazy" (on the   *)
 (*             first next() of the returned iterable) | "never"            *)
-(*   ret       "list" | "generator" | "iter_with_close"                    *)
+(*   ret       "list" | "generator" | "iter_with_close" (an iterator that   *)
+(*             has close()) | "iterable_with_close" (an object with        *)
+(*             close() whose __iter__ hands out a separate iterator)       *)
 (*   chunks    sequence of chunk lengths (0 = empty chunk)                 *)
 (*   raise_at  "none" | "before_start" | "after_start" (at the place where *)
 (*             start_response is / would be called) | "mid_iteration"      *)
@@ -101,7 +103,7 @@ ValidShape(a) ==
 (* the callable itself raises: no iterable is ever returned *)
 RaisesInCall(a) == a.start = "eager" /\ a.raise_at \in {"before_start", "after_start"}
 ReturnsIterable(a) == ~RaisesInCall(a)
-HasClose(a) == a.ret \in {"generator", "iter_with_close"}
+HasClose(a) == a.ret \in {"generator", "iter_with_close", "iterable_with_close"}
 ExpectedClose(a) == IF ReturnsIterable(a) /\ HasClose(a) THEN 1 ELSE 0
 
 (* the application behaves: it calls start_response (eagerly or lazily     *)
@@ -113,7 +115,7 @@ ExpectedHeaders(a) == [i \in DOMAIN a.headers |-> <<a.headers[i].lower, a.header
 ExpectedTotal(a) == Sum(a.chunks)
 
 (* ---- situation classes used as alarm contexts ---------------------------- *)
-RetWord(a) == IF a.ret = "iter_with_close" THEN "iterator" ELSE a.ret
+RetWord(a) == IF a.ret = "iter_with_close" THEN "iterator" ELSE IF a.ret = "iterable_with_close" THEN "iterable" ELSE a.ret
 ShapeCtx(a) ==
     (IF a.start = "lazy" THEN "lazy-start-" \o RetWord(a)
      ELSE IF a.start = "never" THEN "no-start-response-" \o RetWord(a)
@@ -159,7 +161,7 @@ Requests ==
      max_body : {0, 2},
      body : {<<0>>, <<1>>, <<2>>, <<3>>, <<1, 1>>, <<2, 0>>, <<2, 1>>, <<1, 0, 1>>, <<3, 5>>}]
 Shapes ==
-    {a \in [start : {"eager", "lazy", "never"}, ret : {"list", "generator", "iter_with_close"},
+    {a \in [start : {"eager", "lazy", "never"}, ret : {"list", "generator", "iter_with_close", "iterable_with_close"},
             chunks : {<<>>, <<0>>, <<3>>, <<3, 0, 5>>},
             raise_at : {"none", "before_start", "after_start", "mid_iteration"},
             status : {"200 OK"}, code : {200}, headers : {<<>>}] : ValidShape(a)}
